@@ -215,6 +215,9 @@ func (c *fn) call(call *ast.CallExpr) cx {
 	}
 	var as []cx
 	nguard := 0
+	if recvE != nil && c.kindOf(recvE) == kNilable && c.g.concreteOf(c.typeOf(recvE), c.sub) != nil {
+		c.fail(call, "method call through an interface value that may hold a nil pointer (type row with Concrete): not supported")
+	}
 	if recvE != nil && c.kindOf(recvE) == kNilable && len(fi.params) > 0 && fi.params[0].dropped {
 		// a method of a possibly nil interface value: the call panics on nil
 		as = append(as, c.pointee(recvE))
@@ -1440,6 +1443,9 @@ func (g *gen) deepEqb(t types.Type, sub tsubst, busy map[string]bool) string {
 		}
 		var parts []string
 		for _, f := range rec.fields {
+			if f.nilable {
+				g.fail("reflect.DeepEqual on %s, which has a nilable field", key)
+			}
 			parts = append(parts, "("+g.deepEqb(f.typ, sub, busy)+" ("+f.name+" a) ("+f.name+" b))")
 		}
 		if len(parts) == 0 {
